@@ -14,5 +14,8 @@ CONSTANTS
   Hook = FALSE
   Steer = FALSE
   Emit = FALSE
+  Sizes = {1}
+  Targets = {}
+  Canon = FALSE
 PROPERTIES CallsReturn
 CHECK_DEADLOCK FALSE
